@@ -63,7 +63,7 @@ def template_body(draw, o: Opts, streams: List[int]) -> List[Dict[str, Any]]:
     items = []
     for _ in range(pick(draw, [3, 2, 4, 5, 6])):
         inst = copy.deepcopy(pick(draw, templates))
-        var = pick(draw, ["same", "same", "same", "drop", "rename", "wrap_same", "wrap_other", "fault"])
+        var = pick(draw, ["same", "same", "same", "drop", "rename", "wrap_same", "wrap_other", "fault", "wrap_python"])
         launches = [k for k in inst["kids"]]
         if var == "drop" and launches:
             inst["kids"] = inst["kids"][:-1]
@@ -79,6 +79,11 @@ def template_body(draw, o: Opts, streams: List[int]) -> List[Dict[str, Any]]:
             inst = {"t": "op", "name": pick(draw, ["aten::linear", "forward", "aten::view"]),
                     "cat": pick(draw, ["cpu_op", "user_annotation"]), "pre": pick(draw, SMALL), "post": pick(draw, SMALL), "min": 1,
                     "kids": [inst]}
+        elif var == "wrap_python":
+            # with_stack=True: the operator sits beneath 1-2 python_function frames, i.e. deeper than its twin without them
+            for _ in range(pick(draw, [1, 2])):
+                inst = {"t": "op", "name": pick(draw, vocab.PYTHON_FRAMES), "cat": "python_function", "pre": pick(draw, SMALL),
+                        "post": pick(draw, SMALL), "min": 1, "kids": [inst]}
         elif var == "fault" and launches:
             k = inst["kids"][-1]
             tgt = k if k["t"] == "launch" else k["kids"][0]
@@ -174,6 +179,8 @@ def _validate(case, p, rank, df, where) -> CaseInfo:
     if len(names) >= 2:
         classes.append("substring_matches_several_names")
     classes.append(f"min_len={p['min_len']}")
+    if any(r.cat == "python_function" for r in rows_all):
+        classes.append("python_function_frames")
     if any(ch in p["op"] for ch in "()[]|+*?"):
         classes.append("operator_name_with_regex_metacharacters")
     return CaseInfo(nontrivial=len(want) >= 2 and any(v[0] >= 2 for v in want.values()), classes=classes)
@@ -181,7 +188,7 @@ def _validate(case, p, rank, df, where) -> CaseInfo:
 
 @st.composite
 def c16_case(draw):
-    o = Opts(steps=[0, 1, 2, 3], w_sync=0, p_zero_op=0, allow_zero_call=False, second_thread=True, autograd=False, device_sync=False,
+    o = Opts(python_frames=True, steps=[0, 1, 2, 3], w_sync=0, p_zero_op=0, allow_zero_call=False, second_thread=True, autograd=False, device_sync=False,
              annotations=True, w_launch=6, max_top=3, max_depth=2, streams=2, body_fn=template_body, kernel_names=KNAMES)
     case = draw(sim_case(o, max_ranks=2, extras_trace_span=True, nranks_choices=[2, 1]))
     rank = draw(st.sampled_from([r["rank"] for r in case["ranks"]]))
@@ -206,5 +213,5 @@ def view(case):
 def campaigns(tier: str) -> List[Campaign]:
     return [Campaign("sequences", c16_case(), check, quick=480, thorough=11200, quick_shards=8,
                      required_classes={"several_patterns": 0.1, "repeated_pattern": 0.2, "substring_matches_several_names": 0.04,
-                                       "no_pattern": 0.02, "rank_0_after_another_rank": 0.015, "operator_name_with_regex_metacharacters": 0.04},
+                                       "no_pattern": 0.02, "rank_0_after_another_rank": 0.015, "operator_name_with_regex_metacharacters": 0.04, "python_function_frames": 0.1},
                      sample_view=view)]
